@@ -330,6 +330,60 @@ func execA(t *testing.T, job vx.Job) (res vx.Result) {
 		conn.SetConsensusHandler(ctx, nil)
 	}
 
+	// Envelopes carrying more than one consensus value (honest senders set exactly one field; an attacker sets what it
+	// likes): every combination of two or three fields in both key orders, with a handler whose verdict depends on the
+	// kind of value (every triple over accept / reject / ignore). A relayed payload is relayed as a whole: the validator
+	// may answer accept only if no value of this payload that it showed the handler was rejected or ignored (and at
+	// least one was accepted).
+	if lo <= int(gexchange.FeedbackAccepted) && int(gexchange.FeedbackAccepted) <= hi {
+		field := map[string]string{kPH: "ProposedHeader", kPV: "PrevoteProof", kPC: "PrecommitProof"}
+		valid := map[string][]byte{}
+		for _, k := range allKinds {
+			valid[k] = m.encode(k, tableID)
+		}
+		combos := [][]string{{kPH, kPV}, {kPV, kPH}, {kPH, kPC}, {kPC, kPH}, {kPV, kPC}, {kPC, kPV}, {kPH, kPV, kPC}, {kPC, kPV, kPH}}
+		verdicts := []gexchange.Feedback{gexchange.FeedbackAccepted, gexchange.FeedbackRejected, gexchange.FeedbackIgnored}
+		for _, combo := range combos {
+			var parts []string
+			for _, k := range combo {
+				parts = append(parts, fmt.Sprintf("%q:%s", field[k], innerOf(valid[k], field[k])))
+			}
+			data := []byte("{" + strings.Join(parts, ",") + "}")
+			for _, fPH := range verdicts {
+				for _, fPV := range verdicts {
+					for _, fPC := range verdicts {
+						per := map[string]gexchange.Feedback{kPH: fPH, kPV: fPV, kPC: fPC}
+						rec := newRecorder()
+						h := &handler{name: "H", rec: rec, fb: func(kind string, _ uint64) gexchange.Feedback { return per[kind] }}
+						r, pan := one(connValidator(conn, h), other, data)
+						res.Count("multi_value_envelope_cells", 1)
+						if pan != nil {
+							res.Violate("C14", "c20a:validator-panic:multi-value-envelope", fmt.Sprintf("validator panicked on an envelope with fields %v: %v", combo, pan), 0)
+							continue
+						}
+						calls := rec.snapshot()
+						keys[fmt.Sprintf("multi|%s|calls=%d|%s", strings.Join(combo, "+"), len(calls), vrName(r))] = struct{}{}
+						if r != pubsub.ValidationAccept {
+							continue
+						}
+						accepted, refused := 0, ""
+						for _, c := range calls {
+							if c.Fb == gexchange.FeedbackAccepted {
+								accepted++
+							} else if refused == "" {
+								refused = c.Key + "=" + fbClass(c.Fb)
+							}
+						}
+						if accepted == 0 || refused != "" {
+							res.Violate(prop, "a:multi-value-envelope-relayed-although-a-value-was-not-accepted",
+								fmt.Sprintf("an envelope with fields %v was answered with ValidationAccept (=relay) although the handler did not accept every value it was shown (%s); handler calls=%v", combo, refused, calls), 0)
+						}
+					}
+				}
+			}
+		}
+	}
+
 	// The validator in force while no handler is installed.
 	for _, in := range inputs {
 		for _, sender := range []string{"other", "self"} {
